@@ -421,7 +421,8 @@ GLUE bool with_matcher_rm(Form f, const std::vector<El>& l, const Cont& k) {
         if (!all_plain) return false;
         // the source container is gone before the matcher is used: the matcher must own a copy
         auto src = std::make_unique<std::vector<int>>(values_of(l));
-        auto m = make_rm<RMK, void>(*src);
+        { auto first = make_rm<RMK, void>(*src); (void)first; }   // a named container is used for more than one matcher:
+        auto m = make_rm<RMK, void>(*src);                        // the second one must still see the values
         src.reset();
         deliver<KS_ALL>(m, k);
         return true;
